@@ -9,10 +9,20 @@ def run(tier, seed):
     r = inputfam.key_run(3, wide=(tier == "thorough"))  # (4 segments: 150k targets, the partition judge is quadratic)
     bad = r["collisions"] + r["splits"]
     parts = [dict(name="cache_key_partition", evaluations=r["cases"], distinct=r["hexes"], bad=bad, detail=r["detail"], sample=r["sample"])]
+    e = r.get("e2e")
+    if e:
+        # more GETs at the origin than identities: some identity was split over two entries
+        ebad = e["wrong"] + (1 if e["origin_gets_first_pass"] > e["get_identities"] else 0)
+        parts.append(dict(name="cache_key_end_to_end", evaluations=2 * e["cases"], distinct=e["get_identities"], bad=ebad,
+                          detail="wrong=%d origin_gets_first_pass=%d identities=%d first: %s" % (e["wrong"], e["origin_gets_first_pass"], e["get_identities"], e["detail"]),
+                          sample=[e]))
     return finish("C02", tier, t0, parts,
-                  "TLC enumerates request targets (2 (3) methods x 3 (4) host spellings x paths of <=3 segments over {a,b,.,..,'',a|b,a%7Cb,a%3Fb} x trailing slash x 5 queries), "
+                  "TLC enumerates request targets (2 (3) methods x 3 (4) host spellings x paths of <=3 segments over {a,b,.,..,'',a|b,a%7Cb,a%3Fb} x trailing slash x 7 queries), "
                   "renders the wire form and computes the Strict and Loose identities; the Go driver parses each wire request with http.ReadRequest and computes "
                   "cache.MakeFromRequest; TLC judges the partition: no key shared by different Loose identities, one key per Strict identity. "
+                  "End to end: the same targets are sent twice through the real proxy on a raw socket (host spellings mapped to localhost / LOCALHOST / 127.0.0.1); "
+                  "the origin's storable answers name the case whose request reached it, so TLC sees whose entry every response came from: never one of "
+                  "another Loose identity, and no more origin GETs in the first pass than there are Strict identities. "
                   "distinct_nontrivial = distinct keys produced.",
                   ["percent-encoded spellings of the same decoded path and '' vs '/' are accepted either way", "host:port variants are not part of the language"])
 
